@@ -52,12 +52,28 @@ pub fn shipped_src<P: SWCurveConfig>() -> Src<P> {
     let n = &r * &h;
     Arc::new(move |t| {
         let g = Projective::<P>::generator();
-        let cls = t.weighted(&[1, 1, 3, 8, 3, 3, 3, 2]);
+        let cls = t.weighted(&[1, 1, 3, 8, 3, 3, 3, 2, 1]);
         match cls {
             0 => (Affine::<P>::identity(), "P=identity"),
             1 => (P::GENERATOR, "P=G"),
             2 => (ref_mul(&g, &big_below(t, &r)).into_affine(), "P=subgroup"),
             3 => (from_x::<P>(t), "P=from-x"),
+            8 => {
+                // the points with a zero abscissa (0, +-sqrt b), where they exist (in the subgroup on cofactor-one curves,
+                // of order 3 on the j = 0 curves), alone or added to a subgroup point; otherwise an ordinary from-x point
+                let greatest = t.bool();
+                match Affine::<P>::get_point_from_x_unchecked(<P::BaseField as Zero>::zero(), greatest) {
+                    Some(z) => {
+                        if t.bool() {
+                            let s = ref_mul(&g, &big_below(t, &r));
+                            ((s + z).into_affine(), "P=subgroup+x-zero")
+                        } else {
+                            (z, "P=x-zero")
+                        }
+                    },
+                    None => (from_x::<P>(t), "P=from-x"),
+                }
+            },
             _ => {
                 let rr: Projective<P> = from_x::<P>(t).into();
                 // a point of small prime order l | h, or the whole cofactor-torsion component of R
@@ -104,7 +120,9 @@ fn order_l_component<P: SWCurveConfig>(rr: &Projective<P>, n: &BigUint, l: u64) 
 pub fn torsion_src<P: SWCurveConfig>() -> Src<P> {
     let r = modulus_of::<P::ScalarField>();
     let h = cofactor_of::<P>();
-    let ells = small_prime_factors(&h);
+    // every prime factor of the cofactor below 2^21 (BLS12-381 G1: 3, 11, 10177, 859267; G2: 13, 23, 2713, 11953, 262069;
+    // BN254 G2: 10069; ...): for the larger ones (a, b) is a random element of (Z/l)^2 instead of a sweep
+    let ells = prime_factors_below(&h, 1 << 21);
     let n = &r * &h;
     let fixed = |seed: u64| -> Projective<P> {
         let words = [seed, 0];
@@ -112,21 +130,32 @@ pub fn torsion_src<P: SWCurveConfig>() -> Src<P> {
         from_x::<P>(&mut t).into()
     };
     let (r1, r2) = (fixed(0x5eed_0001), fixed(0x5eed_0002));
+    // the two order-l points per l are a pure function of (curve, l): computed once and kept
+    let cache: std::sync::Mutex<std::collections::BTreeMap<u64, (Projective<P>, Projective<P>)>> = Default::default();
     Arc::new(move |t| {
         if ells.is_empty() {
             return (from_x::<P>(t), "P=from-x");
         }
         let l = ells[t.idx(ells.len())];
-        let (t1, t2) = (order_l_component::<P>(&r1, &n, l), order_l_component::<P>(&r2, &n, l));
+        let cached = cache.lock().unwrap().get(&l).copied();
+        let (t1, t2) = match cached {
+            Some(v) => v,
+            None => {
+                let v = (order_l_component::<P>(&r1, &n, l), order_l_component::<P>(&r2, &n, l));
+                cache.lock().unwrap().insert(l, v);
+                v
+            },
+        };
         let a = t.below(l);
         let b = t.below(l);
         let tors = ref_mul(&t1, &BigUint::from(a)) + ref_mul(&t2, &BigUint::from(b));
+        let big_l = l >= 2000;
         if t.bool() {
             let g = Projective::<P>::generator();
             let s = ref_mul(&g, &big_below(t, &r));
-            ((s + tors).into_affine(), "P=subgroup+l-torsion-combination")
+            ((s + tors).into_affine(), if big_l { "P=subgroup+l-torsion-combination(l>=2000)" } else { "P=subgroup+l-torsion-combination" })
         } else {
-            (tors.into_affine(), "P=l-torsion-combination")
+            (tors.into_affine(), if big_l { "P=l-torsion-combination(l>=2000)" } else { "P=l-torsion-combination" })
         }
     })
 }
@@ -172,6 +201,11 @@ pub fn clear<P: SWCurveConfig>(c: &SwCtx<P>, t: &mut Tape<'_>, o: &mut Obs) -> R
     o.evals(8);
     let cp = no_panic("clear_cofactor", || p.clear_cofactor())?;
     ensure!(on_curve(&cp), "clear.off-curve", "clear_cofactor({}) = {} is not on the curve", p, cp);
+    // the configuration-level spelling and the trait-qualified one are the same map
+    let cp2 = no_panic("config.clear_cofactor", || P::clear_cofactor(&p))?;
+    ensure!(cp2 == cp, "clear.config", "P::clear_cofactor(&P) = {} but P.clear_cofactor() = {}", cp2, cp);
+    let cp3 = no_panic("AffineRepr::clear_cofactor", || <Affine<P> as AffineRepr>::clear_cofactor(&p))?;
+    ensure!(cp3 == cp, "clear.trait", "AffineRepr::clear_cofactor(&P) = {} but P.clear_cofactor() = {}", cp3, cp);
     ensure!(ref_mul(&cp.into_group(), &c.r).is_zero(), "clear.not-in-subgroup", "clear_cofactor({}) = {} is not killed by r", p, cp);
     ensure!(no_panic("is_in_correct_subgroup", || cp.is_in_correct_subgroup_assuming_on_curve())?, "clear.membership", "membership test rejects clear_cofactor({}) = {}", p, cp);
     if let Some(cc) = &c.c {
